@@ -27,7 +27,20 @@ R1 = {
         M("algo/KnuthD_MC.tla", "algo/KnuthD_vartime_W2L5Y4.cfg", tiers=T, workers=12),
         M("algo/KnuthD_MC.tla", "algo/KnuthD_limb_W4L3Y1.cfg", tiers=T),
     ],
+    "C08": [
+        M("algo/Monty.tla", "algo/Monty_amm_W3N2.cfg"),
+        M("algo/Monty.tla", "algo/Monty_reduce_W3N2.cfg"),
+        M("algo/Monty.tla", "algo/Monty_amm_W2N3.cfg"),
+        M("algo/Monty.tla", "algo/Monty_reduce_W2N3.cfg"),
+        M("algo/Monty.tla", "algo/Monty_amm_W4N2.cfg", tiers=T, workers=12, timeout=3000),
+        M("algo/Monty.tla", "algo/Monty_reduce_W4N2.cfg", tiers=T, workers=12, timeout=3000),
+        M("algo/Monty.tla", "algo/Monty_amm_W2N4.cfg", tiers=T, workers=12, timeout=3000),
+        M("algo/Monty.tla", "algo/Monty_reduce_W2N4.cfg", tiers=T, workers=12, timeout=3000),
+    ],
 }
 PROPS = {
     "C%02d" % i: dict(bin="c%02d" % i, r1=R1.get("C%02d" % i, []), assumptions=COMMON_ASSUMPTIONS) for i in range(2, 21)
 }
+
+import gen_c08
+PROPS["C08"]["pre"] = gen_c08.pre
